@@ -122,7 +122,7 @@ func bReadU16(r *bytes.Reader, data *uint16) error {
 		bs []byte
 	)
 	bs = b[:]
-	_, err := r.Read(bs)
+	_, err := io.ReadFull(r, bs)
 	*data = binary.BigEndian.Uint16(bs)
 	return err
 }
@@ -134,7 +134,7 @@ func bReadU32(r *bytes.Reader, data *uint32) error {
 		bs []byte
 	)
 	bs = b[:]
-	_, err := r.Read(bs)
+	_, err := io.ReadFull(r, bs)
 	*data = binary.BigEndian.Uint32(bs)
 	return err
 }
@@ -146,7 +146,7 @@ func bReadU64(r *bytes.Reader, data *uint64) error {
 		bs []byte
 	)
 	bs = b[:]
-	_, err := r.Read(bs)
+	_, err := io.ReadFull(r, bs)
 	*data = binary.BigEndian.Uint64(bs)
 	return err
 }
@@ -579,8 +579,11 @@ func (b *Reader) ReadSliceInt8(data *[]int8, len int32, require bool) error {
 		return nil
 	}
 
+	if int(len) > b.buf.Len() {
+		return fmt.Errorf("read []int8 error: length %d exceeds the %d bytes remaining", len, b.buf.Len())
+	}
 	*data = make([]int8, len)
-	_, err := b.buf.Read(*(*[]uint8)(unsafe.Pointer(data)))
+	_, err := io.ReadFull(b.buf, *(*[]uint8)(unsafe.Pointer(data)))
 	if err != nil {
 		err = fmt.Errorf("read []int8 error:%v", err)
 	}
@@ -593,8 +596,11 @@ func (b *Reader) ReadSliceUint8(data *[]uint8, len int32, require bool) error {
 		return nil
 	}
 
+	if int(len) > b.buf.Len() {
+		return fmt.Errorf("read []uint8 error: length %d exceeds the %d bytes remaining", len, b.buf.Len())
+	}
 	*data = make([]uint8, len)
-	_, err := b.buf.Read(*data)
+	_, err := io.ReadFull(b.buf, *data)
 	if err != nil {
 		err = fmt.Errorf("read []uint8 error:%v", err)
 	}
@@ -603,8 +609,11 @@ func (b *Reader) ReadSliceUint8(data *[]uint8, len int32, require bool) error {
 
 // ReadBytes reads []byte for the given length and the require or optional sign.
 func (b *Reader) ReadBytes(data *[]byte, len int32, require bool) error {
+	if len < 0 || int(len) > b.buf.Len() {
+		return fmt.Errorf("read []byte error: length %d, %d bytes remaining", len, b.buf.Len())
+	}
 	*data = make([]byte, len)
-	_, err := b.buf.Read(*data)
+	_, err := io.ReadFull(b.buf, *data)
 	return err
 }
 
@@ -849,6 +858,9 @@ func (b *Reader) ReadString(data *string, tag byte, require bool) error {
 		if err != nil {
 			return fmt.Errorf("read string4 tag:%d error:%v", tag, err)
 		}
+		if int64(length) > int64(b.buf.Len()) {
+			return fmt.Errorf("read string4 tag:%d error: length %d exceeds the %d bytes remaining", tag, length, b.buf.Len())
+		}
 		buff := b.Next(int(length))
 		*data = string(buff)
 	} else if ty == STRING1 {
@@ -856,6 +868,9 @@ func (b *Reader) ReadString(data *string, tag byte, require bool) error {
 		err = bReadU8(b.buf, &length)
 		if err != nil {
 			return fmt.Errorf("read string1 tag:%d error:%v", tag, err)
+		}
+		if int(length) > b.buf.Len() {
+			return fmt.Errorf("read string1 tag:%d error: length %d exceeds the %d bytes remaining", tag, length, b.buf.Len())
 		}
 		buff := b.Next(int(length))
 		*data = string(buff)
